@@ -2,7 +2,7 @@
    Print Assumptions. *)
 From Coq Require Import ZArith QArith List Bool.
 From Centro Require Import Base.VecC13 Model.Circle Model.CircleVec Model.Feret Model.HullFill Spec.MecSpec Spec.ChrystalHyp Spec.FeretSpec Spec.FeretLower Spec.FillSpec
-  Proofs.MecProofs Proofs.CircleProofs Proofs.ChrystalFull Proofs.CircleVecProofs Proofs.FeretProofs Proofs.FeretLowerProofs Proofs.SweepProofs Proofs.FillProofs Proofs.FillEdgeProofs Proofs.FillModelProofs.
+  Proofs.MecProofs Proofs.CircleProofs Proofs.ChrystalFull Proofs.CircleVecProofs Proofs.CircleVecStep Proofs.FeretProofs Proofs.FeretLowerProofs Proofs.SweepProofs Proofs.FillProofs Proofs.FillEdgeProofs Proofs.FillModelProofs.
 
 (* Full.  Soundness of the certificate checker that is run on the exact circle reconstructed from
    the implementation's output: the circle contains every pixel centre of S and no circle
@@ -79,20 +79,20 @@ Theorem C14_mec_vec_reads_local : forall rows app k st st',
 Proof. exact decide_local. Qed.
 Print Assumptions C14_mec_vec_reads_local.
 
-(* Partial (per-object independence of a whole pass).  Proved: the writes an iteration performs for
-   another object k' (its keep_me / result entry, its s0_idx or s1_idx entry, two positions of
-   within_label_indexes among k' own rows) leave everything object k reads untouched.  Missing: the
-   composition lemma over the fold of all objects' writes in one pass (vstep_fold_frame) and the
-   congruence of an object's own write, which together give "object k's trajectory is a function of
-   block k alone".  On every run the extracted vectorised model is compared with the per-object
-   model of Model/Circle.v for all objects of the call. *)
-Theorem C14_mec_vec_independent_partial : forall app k k' st a,
-  Z.to_nat k <> Z.to_nat k' -> k <> k' ->
-  nthz app (nthz (v_s0 st) k' 0%Z) (-1)%Z = k' -> nthz app (nthz (v_s1 st) k' 0%Z) (-1)%Z = k' ->
-  (forall g, a = MoveS0 g \/ a = MoveS1 g -> nthz app g (-1)%Z = k') ->
-  agree app k (apply_action st k' a) st.
-Proof. exact others_frame. Qed.
-Print Assumptions C14_mec_vec_independent_partial.
+(* Full (per-object independence of a whole pass of the vectorised loop).  Two global states with
+   arrays of equal sizes that agree on object k's own entries (keep_me, s0_idx, s1_idx, result and
+   within_label_indexes at k's rows) still agree on them after one pass over all n objects, whatever
+   the other objects' entries are - provided every object's s0_idx / s1_idx point at its own rows
+   (true initially by C14_mec_vec_own_block / own_anti and preserved, since a new S0 / S1 is one of
+   the object's own candidate rows).  Composition of read-locality, the write frame
+   (CircleVecProofs.others_frame) and congruence of an object's own write over the fold of all writes. *)
+Theorem C14_mec_vec_independent : forall rows app n st st' k,
+  (0 <= k < Z.of_nat n)%Z -> samelen st st' -> agree app k st st' ->
+  (forall k', (0 <= k' < Z.of_nat n)%Z -> owner app st k') ->
+  (forall k', (0 <= k' < Z.of_nat n)%Z -> owner app st' k') ->
+  agree app k (vstep rows app n st) (vstep rows app n st').
+Proof. exact vstep_independent. Qed.
+Print Assumptions C14_mec_vec_independent.
 
 (* Full.  The brute-force maximum Feret diameter (squared) that the implementation's value is
    compared with is the largest squared distance between two pixels of the object. *)
